@@ -49,15 +49,15 @@ theorem abs_own_some {V} (undef : V) (mv : MView V) (o : Nat) (k : Key) (s : Sto
     (mv.abs undef).own o k = some (absProp undef s) := by simp [MView.abs, h]
 
 
-theorem defineAct_refines {V} [DecidableEq V] (fixed : Bool) (undef : V) (mv : MView V) (o : Nat) (k : Key) (d : Desc V)
-    (hc : CellOk fixed undef (mv.own o k) d (mv.ext o)) :
-    (defineAct fixed undef mv o k d).map (absProp undef) =
+theorem defineAct_refines {V} [DecidableEq V] (undef : V) (mv : MView V) (o : Nat) (k : Key) (d : Desc V)
+    (hc : CellOk undef (mv.own o k) d (mv.ext o)) :
+    (defineAct undef mv o k d).map (absProp undef) =
       (match validateAndApply undef ((mv.own o k).map (absProp undef)) d (mv.ext o) with
        | some p => Act.write o k p (mv.own o k).isNone
        | none => Act.fail) := by
   have hx := hc.1
   unfold defineAct
-  cases hd : defineOwn fixed undef (mv.own o k) d (mv.ext o) with
+  cases hd : defineOwn undef (mv.own o k) d (mv.ext o) with
   | none => rw [← hx, hd]; simp [Act.map]
   | some s => rw [← hx, hd]; simp [Act.map]
 
@@ -68,17 +68,17 @@ theorem descFull_wf {V} (v : V) : (descFull v).wellFormed = true := by
 
 /-- the receiver part of `Object.set*` (after `setForeign*` reported "not handled") = steps 2.b-2.e of
 OrdinarySetWithOwnDescriptor. -/
-theorem recv_define_refines {V} [DecidableEq V] (fixed : Bool) (undef : V) (mv : MView V) (hinv : RepInvView mv)
+theorem recv_define_refines {V} [DecidableEq V] (undef : V) (mv : MView V) (hinv : RepInvView mv)
     (k : Key) (v : V) (receiver : Recv) :
-    (recvDefine fixed undef mv k v receiver).map (absProp undef) = setData undef (mv.abs undef) k v receiver := by
+    (recvDefine undef mv k v receiver).map (absProp undef) = setData undef (mv.abs undef) k v receiver := by
   cases receiver with
   | prim => simp [recvDefine, setData, Act.map]
   | obj robj =>
     cases hown : mv.own robj k with
     | none =>
-      have hc := cell_any fixed undef (mv.own robj k) (descFull v) (mv.ext robj) (descFull_wf v)
-        (fun s hs => hinv robj k s hs) (Or.inr (by simp [hown, kindChange]))
-      have := defineAct_refines fixed undef mv robj k (descFull v) hc
+      have hc := cell_any undef (mv.own robj k) (descFull v) (mv.ext robj) (descFull_wf v)
+        (fun s hs => hinv robj k s hs)
+      have := defineAct_refines undef mv robj k (descFull v) hc
       simp only [hown, Option.map, Option.isNone] at this
       simp only [recvDefine, hown]
       rw [this]
@@ -88,9 +88,9 @@ theorem recv_define_refines {V} [DecidableEq V] (fixed : Bool) (undef : V) (mv :
       have hri := hinv robj k s hown
       cases s with
       | plain x =>
-        have hc := cell_any fixed undef (mv.own robj k) (descValue v) (mv.ext robj) (descValue_wf v)
-          (fun s hs => hinv robj k s hs) (Or.inr (by simp [hown, kindChange, descValue, Desc.isAccessor]))
-        have := defineAct_refines fixed undef mv robj k (descValue v) hc
+        have hc := cell_any undef (mv.own robj k) (descValue v) (mv.ext robj) (descValue_wf v)
+          (fun s hs => hinv robj k s hs)
+        have := defineAct_refines undef mv robj k (descValue v) hc
         simp only [hown, Option.map, Option.isNone, absProp] at this
         simp only [recvDefine, hown]
         rw [this]
@@ -101,9 +101,9 @@ theorem recv_define_refines {V} [DecidableEq V] (fixed : Bool) (undef : V) (mv :
         · simp [recvDefine, hown, setData, MView.abs, absProp, ha, Act.map]
         · have ha' : p.accessor = false := by simpa using ha
           by_cases hw : p.writable = true
-          · have hc := cell_any fixed undef (mv.own robj k) (descValue v) (mv.ext robj) (descValue_wf v)
-              (fun s hs => hinv robj k s hs) (Or.inr (by simp [hown, kindChange, descValue, Desc.isAccessor, ha']))
-            have := defineAct_refines fixed undef mv robj k (descValue v) hc
+          · have hc := cell_any undef (mv.own robj k) (descValue v) (mv.ext robj) (descValue_wf v)
+              (fun s hs => hinv robj k s hs)
+            have := defineAct_refines undef mv robj k (descValue v) hc
             simp only [hown, Option.map, Option.isNone, absProp, ha'] at this
             simp only [recvDefine, hown, ha', hw]
             simp only [Bool.false_eq_true, if_false, Bool.not_true] 
@@ -114,33 +114,33 @@ theorem recv_define_refines {V} [DecidableEq V] (fixed : Bool) (undef : V) (mv :
             simp [recvDefine, hown, setData, MView.abs, absProp, ha', hw', Act.map]
 
 /-- the inlined tails of the three `Object.set*` copies are the same text -/
-theorem objSetStr_unfold {V} [DecidableEq V] (fixed : Bool) (undef : V) (mv : MView V) (o : Nat) (rest : List Nat)
+theorem objSetStr_unfold {V} [DecidableEq V] (undef : V) (mv : MView V) (o : Nat) (rest : List Nat)
     (k : Key) (v : V) (r : Recv) :
-    objSetStr fixed undef mv (o :: rest) k v r =
+    objSetStr undef mv (o :: rest) k v r =
       if r == .obj o then setOwnStr mv (o :: rest) k v
       else match setForeignStr mv (o :: rest) k v r with
         | some res => res
-        | none => recvDefine fixed undef mv k v r := by
+        | none => recvDefine undef mv k v r := by
   unfold objSetStr recvDefine
   cases r <;> rfl
 
-theorem objSetSym_unfold {V} [DecidableEq V] (fixed : Bool) (undef : V) (mv : MView V) (o : Nat) (rest : List Nat)
+theorem objSetSym_unfold {V} [DecidableEq V] (undef : V) (mv : MView V) (o : Nat) (rest : List Nat)
     (k : Key) (v : V) (r : Recv) :
-    objSetSym fixed undef mv (o :: rest) k v r =
+    objSetSym undef mv (o :: rest) k v r =
       if r == .obj o then setOwnSym mv (o :: rest) k v
       else match setForeignSym mv (o :: rest) k v r with
         | some res => res
-        | none => recvDefine fixed undef mv k v r := by
+        | none => recvDefine undef mv k v r := by
   unfold objSetSym recvDefine
   cases r <;> rfl
 
-theorem objSetIdx_unfold {V} [DecidableEq V] (fixed : Bool) (undef : V) (mv : MView V) (o : Nat) (rest : List Nat)
+theorem objSetIdx_unfold {V} [DecidableEq V] (undef : V) (mv : MView V) (o : Nat) (rest : List Nat)
     (k : Key) (v : V) (r : Recv) :
-    objSetIdx fixed undef mv (o :: rest) k v r =
+    objSetIdx undef mv (o :: rest) k v r =
       if r == .obj o then setOwnIdx mv (o :: rest) k v
       else match setForeignIdx mv (o :: rest) k v r with
         | some res => res
-        | none => recvDefine fixed undef mv k v r := by
+        | none => recvDefine undef mv k v r := by
   unfold objSetIdx recvDefine
   cases r <;> rfl
 
